@@ -1,0 +1,102 @@
+// Copyright 2023 The Go Authors. All rights reserved.
+// Use of this source code is governed by a BSD-style
+// license that can be found in the LICENSE file.
+
+//go:build verif && (!goexperiment.jsonv2 || !go1.25)
+
+package jsontext
+
+import (
+	"math"
+	"math/big"
+)
+
+// Bounded stand-ins. The functions below are built on strings.ReplaceAll /
+// CutPrefix / TrimPrefix or on float64 comparisons and conversions, for which the
+// verifier has no first-order theory (no sequence theory, floats are opaque). Their
+// contracts are therefore only *executed* against the real functions on generated
+// inputs (`bounded`): never counted as proved and never assumed by a proof.
+
+// boundedUnescapeToken is RFC 6901 section 4 read left to right: "~1" is '/',
+// "~0" is '~', every other byte stands for itself.
+func boundedUnescapeToken(tok string) string {
+	var out []byte
+	for i := 0; i < len(tok); i++ {
+		switch {
+		case tok[i] == '~' && i+1 < len(tok) && tok[i+1] == '1':
+			out = append(out, '/')
+			i++
+		case tok[i] == '~' && i+1 < len(tok) && tok[i+1] == '0':
+			out = append(out, '~')
+			i++
+		default:
+			out = append(out, tok[i])
+		}
+	}
+	return string(out)
+}
+
+// boundedSaturate is the documented conversion of Token.Int/Uint for a float:
+// NaN is 0, otherwise truncate toward zero and saturate to [lo, hi].
+func boundedSaturate(f float64, lo, hi *big.Int) *big.Int {
+	switch {
+	case math.IsNaN(f):
+		return new(big.Int)
+	case math.IsInf(f, +1):
+		return hi
+	case math.IsInf(f, -1):
+		return lo
+	}
+	z, _ := new(big.Float).SetFloat64(f).Int(nil) // truncates toward zero
+	switch {
+	case z.Cmp(lo) < 0:
+		return lo
+	case z.Cmp(hi) > 0:
+		return hi
+	}
+	return z
+}
+
+func boundedI64OK(f float64, r int64) bool {
+	return big.NewInt(r).Cmp(boundedSaturate(f, big.NewInt(math.MinInt64), big.NewInt(math.MaxInt64))) == 0
+}
+
+func boundedU64OK(f float64, r uint64) bool {
+	return new(big.Int).SetUint64(r).Cmp(boundedSaturate(f, new(big.Int), new(big.Int).SetUint64(math.MaxUint64))) == 0
+}
+
+//@ func unescapePointerToken
+//@ property C16
+//@ bounded strings.ReplaceAll has no first-order contract (no sequence theory)
+//@ ensures rfc6901-order: result == boundedUnescapeToken(token)
+
+//@ func (Pointer).AppendToken
+//@ property C16
+//@ bounded strings and string concatenation of unbounded texts (no sequence theory)
+//@ ensures last-token: utf8.ValidString(tok) ==> result.LastToken() == tok
+//@ ensures parent: result.Parent() == p
+//@ ensures contains: p.Contains(result) && len(result) > len(p)
+//@ ensures stays-valid: p.IsValid() && utf8.ValidString(tok) ==> result.IsValid()
+
+//@ func (Pointer).LastToken
+//@ property C16
+//@ bounded strings.LastIndexByte / TrimPrefix / ReplaceAll (no sequence theory)
+//@ ensures rebuild: p.IsValid() && len(p) > 0 ==> p.Parent().AppendToken(result) == p
+//@ ensures empty: len(p) == 0 ==> result == ""
+
+//@ func (Pointer).Contains
+//@ property C16
+//@ bounded strings.CutPrefix (no sequence theory)
+//@ ensures reflexive-parent: result ==> len(p) <= len(pc)
+//@ ensures self: p == pc ==> result
+//@ ensures child: pc.Parent() == p && len(pc) > len(p) && p.IsValid() && pc.IsValid() ==> result
+
+//@ func f64toi64
+//@ property C10
+//@ bounded float64 comparison and conversion (floats are opaque to the verifier)
+//@ ensures saturating-truncation: boundedI64OK(f64, result)
+
+//@ func f64tou64
+//@ property C10
+//@ bounded float64 comparison and conversion (floats are opaque to the verifier)
+//@ ensures saturating-truncation: boundedU64OK(f64, result)
